@@ -624,6 +624,16 @@ pub fn case_b<H: Sh, T: Sh>(len: usize, ctor: usize, rel: usize, st: &mut SStats
                     what
                 );
                 let t = unsafe { ThinArc::<H, T>::from_raw(p) };
+                ensure!(
+                    t.heap_ptr() as usize == heap && t.slice.len() == len && t.header.length == len && ThinArc::strong_count(&t) == 1,
+                    "C11,C10",
+                    "ptr",
+                    "{}: ThinArc::from_raw(into_raw) gave another allocation, length or count",
+                    what
+                );
+                for (k, e) in t.slice.iter().enumerate() {
+                    ensure!(e.ok(k as u64), "C11,C10", "ptr", "{}: element {} differs after the raw round trip", what, k);
+                }
                 drop(t);
                 "thin into_raw/from_raw, drop"
             }
@@ -652,12 +662,23 @@ pub fn case_b<H: Sh, T: Sh>(len: usize, ctor: usize, rel: usize, st: &mut SStats
             (5, _, Some(t)) => {
                 #[cfg(feature = "full")]
                 {
-                    let c: arc_swap::ArcSwapAny<ThinArc<H, T>> =
-                        shadow::untracked(|| arc_swap::ArcSwapAny::new(t));
+                    let keep = t.clone();
+                    let c: arc_swap::ArcSwapAny<ThinArc<H, T>> = shadow::untracked(|| arc_swap::ArcSwapAny::new(t));
+                    ensure!(
+                        ThinArc::strong_count(&keep) == 2,
+                        "C11,C04",
+                        "ptr",
+                        "{}: after storing a ThinArc in an arc-swap cell (RefCnt::into_ptr) the count is {} with 2 owners",
+                        what,
+                        ThinArc::strong_count(&keep)
+                    );
                     let g = shadow::untracked(|| c.load_full());
                     drop(g);
                     shadow::untracked(|| drop(c));
-                    "arc-swap(ThinArc) new/load_full/drop"
+                    {
+                        drop(keep);
+                        "arc-swap(ThinArc) new/load_full/drop"
+                    }
                 }
                 #[cfg(not(feature = "full"))]
                 {
@@ -1511,10 +1532,10 @@ pub fn case_union<A: Sh, B: Sh>(variant: usize, script: u64, st: &mut SStats) ->
                 when
             );
             if let Some(x) = u.as_first() {
-                ensure!(x.get() as *const A as usize == pa && x.ok(11), "C12", "union", "{} {}: as_first() exposes another address or value", what, when);
+                ensure!(x.get() as *const A as usize == pa && x.ok(11), "C12,C11", "union", "{} {}: as_first() exposes another address or value", what, when);
             }
             if let Some(x) = u.as_second() {
-                ensure!(x.get() as *const B as usize == pb && x.ok(22), "C12", "union", "{} {}: as_second() exposes another address or value", what, when);
+                ensure!(x.get() as *const B as usize == pb && x.ok(22), "C12,C11", "union", "{} {}: as_second() exposes another address or value", what, when);
             }
             match u.borrow() {
                 ArcUnionBorrow::First(x) => {
